@@ -13,6 +13,11 @@
 //!  * paced mode: the thread is held at the top of `run` and granted an exact number of iterations, so the ring
 //!    holds an exactly known number of entries at every callback (tight leads, and deliberately starving ones for
 //!    the model-vs-implementation comparison outside the property's hypothesis).
+//!
+//! Callback boundaries at the physical end of the frame ring (16384 slots): a directed corpus that is the same on every
+//! run (`wrap_corpus`) and seeded histories (`wrap_random`) end callbacks exactly where 16383 (mod 16384) ring entries
+//! have been popped, so that the next callback's `update_current_frame` reads a chunk lying in two pieces of memory; the
+//! ordinary monitors (positions within one frame, states, outputs) are evaluated there.
 use crate::backend::*;
 use crate::util::*;
 use kira::clock::{ClockId, ClockTime};
@@ -1218,6 +1223,12 @@ fn submit(s: &mut Session, ids: &Ids, kind: &str, sc: &Scenario, to_model: bool)
 // ------------------------------------------------------------------------------------------
 fn manager_pair(s: &mut Session, ids: &Ids, r: &mut Rng) {
 	let mut sc = gen_scenario(r, false, Lead::Free);
+	fix_for_manager(&mut sc);
+	let ibs = *r.pick(&[1usize, 3, 16, 128]);
+	run_manager_pair(s, ids, &sc, ibs, "manager_pair");
+}
+/// a scenario for `run_direct` made playable by a real manager
+fn fix_for_manager(sc: &mut Scenario) {
 	// values linked to mock modulators / clocks cannot be resolved by a real manager: keep to fixed values and plain start times
 	let fix = |t: &mut Tgt| {
 		if let Tgt::Mod { olo, .. } = t {
@@ -1252,26 +1263,29 @@ fn manager_pair(s: &mut Session, ids: &Ids, r: &mut Rng) {
 	if let Some(w) = &mut sc.fade_in {
 		fix_start(&mut w.start);
 	}
+}
+/// the static sound on one real `AudioManager`, the streaming sound on another, driven in lock step (one device callback
+/// per `Cb`: `on_start_processing`, then `process` in chunks of the internal buffer size)
+fn run_manager_pair(s: &mut Session, ids: &Ids, sc: &Scenario, ibs: usize, kind: &str) {
 	let dev = (1.0 / sc.dt).round() as u32;
-	let ibs = *r.pick(&[1usize, 3, 16, 128]);
-	let desc = format!("two managers (device rate {dev}, internal buffer {ibs}): {}", describe(&sc));
-	let (ctl, ydata) = spawn_streaming(ids, &sc, Mode::Free);
+	let desc = format!("two managers (device rate {dev}, internal buffer {ibs}): {}", describe(sc));
+	let (ctl, ydata) = spawn_streaming(ids, sc, Mode::Free);
 	let ctl2 = ctl.clone();
 	let mut diffs: Vec<String> = vec![];
 	let res = catch(|| {
 		let mut ms = simple_manager(dev, ibs);
 		let mut my = simple_manager(dev, ibs);
-		let mut hs = ms.play(static_data(ids, &sc)).unwrap();
+		let mut hs = ms.play(static_data(ids, sc)).unwrap();
 		let mut hy = my.play(ydata).unwrap();
 		if obs64(hs.position()) != obs64(hy.position()) || hs.state() != hy.state() {
 			diffs.push(format!("before the first callback: static handle reports position {} state {:?}, streaming handle position {} state {:?}", hs.position(), hs.state(), hy.position(), hy.state()));
 		}
-		let rmax = rate_bound(&sc);
+		let rmax = rate_bound(sc);
 		let mut lb: i64 = 1;
 		let mut finished = false;
 		for (cbi, cb) in sc.cbs.iter().enumerate() {
 			apply_cmds(ids, &cb.cmds, &mut hs, &mut hy);
-			let need = pops_bound(&sc, cb, rmax) + 4;
+			let need = pops_bound(sc, cb, rmax) + 4;
 			while !finished && lb < need {
 				if ctl.wait_full_or_end() {
 					finished = true;
@@ -1290,7 +1304,7 @@ fn manager_pair(s: &mut Session, ids: &Ids, r: &mut Rng) {
 				diffs.push(format!("callback {cbi}: static state {:?}, streaming state {:?}", hs.state(), hy.state()));
 			}
 			let idx = hs.position() * sc.sr as f64;
-			let ended = hs.state() == PlaybackState::Stopped || hy.state() == PlaybackState::Stopped || idx >= num_frames_of(&sc) as f64 - 1e-9;
+			let ended = hs.state() == PlaybackState::Stopped || hy.state() == PlaybackState::Stopped || idx >= num_frames_of(sc) as f64 - 1e-9;
 			let d = (hy.position() - hs.position()) * sc.sr as f64;
 			if !ended && !(d >= -1e-9 && d <= 1.0 + 1e-9) {
 				diffs.push(format!("callback {cbi}: static position {}, streaming position {}: {d} frames apart", hs.position(), hy.position()));
@@ -1302,7 +1316,7 @@ fn manager_pair(s: &mut Session, ids: &Ids, r: &mut Rng) {
 		ctl.set_free();
 	});
 	ctl2.set_free();
-	s.eval_only("manager_pair");
+	s.eval_only(kind);
 	match res {
 		Outcome::Ok(()) => {
 			if let Some(d) = diffs.first() {
@@ -1405,6 +1419,264 @@ fn witnesses(s: &mut Session, ids: &Ids) {
 	}
 }
 
+// ------------------------------------------------------------------------------------------
+// callbacks that START while the ring's read position stands at its last physical slot
+// ------------------------------------------------------------------------------------------
+// The frame ring has RING = 16384 physical slots; the consumer's read position is (entries popped so far) mod RING.
+// When a callback starts with RING - 1 (mod RING) entries popped, the entries that `update_current_frame` and the first
+// `next_frames` look at do not lie in one piece of memory: the "previous" frame is the last physical slot, the frame
+// that is playing is slot 0 (`rtrb::ReadChunk::as_slices` returns two non-empty halves).  The property says nothing of
+// the ring: the position reported at that callback has to be the static sound's like at any other.  A history whose
+// callback boundaries fall anywhere hits such a boundary once in 16384 callbacks or never (equal sample rates, rate 1,
+// even buffer sizes: the popped count is even at every boundary), so these histories are BUILT to end callbacks there.
+struct WrapCbs {
+	cbs: Vec<Cb>,
+	/// (number of the callback, entries popped before it) of every callback that starts at such a boundary
+	at: Vec<(usize, u64)>,
+	/// entries popped by all the callbacks together
+	pops: u64,
+}
+/// Callbacks for a sound that plays from the first callback on at the fixed rate `rate`, never pauses and does not
+/// end: the pops of every frame are computed with the code's own arithmetic (`exact_pops`), and a callback is cut short
+/// right after the frame whose pops bring the total to RING - 1 modulo RING; `hits` such boundaries, then `tail` more
+/// callbacks.  None: no boundary within `max_pops` entries (a rate above 1 can step over the value at every wrap-around).
+fn wrap_cbs(r: &mut Rng, sr: u32, dt: f64, rate: f64, hits: usize, tail: usize, max_pops: u64, deco: bool) -> Option<WrapCbs> {
+	let view = Scenario { rate: Tgt::Fixed(rate), ..sc_view(sr, dt) };
+	let per = sr as f64 * rate.max(0.0) * dt;
+	if !(per >= 0.01) {
+		return None;
+	}
+	let frame_ns = ((dt * 1e9) as u64).max(1);
+	// a callback pops about 4000 entries at most (a quarter of the ring)
+	let max_len = ((4000.0 / per) as usize).clamp(1, 4000);
+	let mut w = WrapCbs { cbs: vec![], at: vec![], pops: 0 };
+	let mut fpos = 0.0f64;
+	let mut hits_left = hits;
+	let mut tail_left = tail;
+	loop {
+		let after_hits = hits_left == 0;
+		if after_hits && tail_left == 0 {
+			break;
+		}
+		let want = if after_hits {
+			tail_left -= 1;
+			*r.pick(&[1usize, 2, 5, 64, 100, 1000])
+		} else {
+			*r.pick(&[4000usize, 4000, 4000, 2000, 1000, 383, 256, 100, 64, 7, 1])
+		}
+		.min(max_len);
+		let mut done = 0usize;
+		let mut cut = false;
+		while done < want && !cut {
+			let k = exact_pops(&view, &mut fpos, 1)[0];
+			done += 1;
+			w.pops += k;
+			if k > 0 && w.pops % RING as u64 == RING as u64 - 1 {
+				cut = true;
+			}
+		}
+		let lens = if done >= 2 && r.chance(1, 3) {
+			let a = r.range(1, done as i64 - 1) as usize;
+			vec![a, done - a]
+		} else {
+			vec![done]
+		};
+		let mut c = Cmds::default();
+		if deco && r.chance(1, 4) {
+			match r.below(3) {
+				0 => c.vol = Some((gen_db(r), gen_tw(r, true, frame_ns))),
+				1 => c.pan = Some((gen_pan(r), gen_tw(r, true, frame_ns))),
+				_ => {
+					c.vol = Some((gen_db(r), gen_tw(r, false, frame_ns)));
+					c.pan = Some((gen_pan(r), gen_tw(r, false, frame_ns)));
+				}
+			}
+		}
+		let k = w.cbs.len() as u64;
+		let (clocks, mods) = if deco { (gen_clocks(r, k), vec![(true, r.dyadic_unit(3)), (true, r.unit_f64())]) } else { (vec![], vec![]) };
+		w.cbs.push(Cb { cmds: c, lens, clocks, mods, grant: 0 });
+		if cut {
+			// the NEXT callback starts at the boundary (there always is one: a hit is followed by the tail or by more hits)
+			w.at.push((w.cbs.len(), w.pops));
+			hits_left = hits_left.saturating_sub(1);
+			if hits_left == 0 && tail_left == 0 {
+				tail_left = 1;
+			}
+		}
+		if w.pops > max_pops && hits_left > 0 {
+			return None;
+		}
+	}
+	Some(w)
+}
+/// what of the sound is drawn at random around a `wrap_cbs` history (`deco`), or kept plain
+struct WrapScenario {
+	sc: Scenario,
+	at: Vec<(usize, u64)>,
+	/// the static sound's position at a boundary callback is start + pops (no loop, no slice, start in samples)
+	plain_positions: Option<usize>,
+}
+fn wrap_scenario(r: &mut Rng, sr: u32, dev: u32, rate: f64, hits: usize, max_pops: u64, deco: bool) -> Option<WrapScenario> {
+	let dt = 1.0 / dev as f64;
+	let tail = 2 + r.below(3) as usize;
+	let w = wrap_cbs(r, sr, dt, rate, hits, tail, max_pops, deco)?;
+	let need = w.pops as usize + 8;
+	// the audio: long enough to be played through once, or shorter and looping (the ring carries on across the loop wrap)
+	let (nf, lp, start) = if need + 500 <= 60_000 && r.chance(1, 2) {
+		let start = if r.chance(1, 2) { 0 } else { r.below(40) as usize };
+		(need + start + r.range(4, 400) as usize, None, start)
+	} else {
+		let nf = r.range(1200, 9000) as usize;
+		let a = r.below(nf as u64 / 2) as usize;
+		let (b, e) = if r.chance(1, 2) { (nf, End::End) } else {
+			let b = r.range(a as i64 + 600, nf as i64) as usize;
+			(b, End::Cus(Pos::Smp(b)))
+		};
+		(nf, Some((Pos::Smp(a), e)), r.below(b as u64 - 1) as usize)
+	};
+	let (n, slice) = if deco && r.chance(1, 4) {
+		let off = r.range(1, 100) as usize;
+		(off + nf + r.below(50) as usize, Some((off, off + nf)))
+	} else {
+		(nf, None)
+	};
+	let frames = if deco { gen_frames(r, n) } else {
+		(0..n).map(|i| {
+			let f = indexed_frame(i);
+			(f.left.to_bits(), f.right.to_bits())
+		}).collect()
+	};
+	// packets of tens to thousands of frames (the scripted decoder finds a packet's start by summing: keep them few)
+	let mut packets = vec![];
+	let style = r.below(4);
+	let fixed = *r.pick(&[64usize, 480, 1000, 4096]);
+	let mut left = n;
+	while left > 0 {
+		let p = match style {
+			0 => fixed,
+			1 => r.range(100, 2000) as usize,
+			2 => n,
+			_ => r.range(50, 300) as usize,
+		}
+		.min(left);
+		packets.push(p);
+		left -= p;
+	}
+	let gran = *r.pick(&[1usize, 1, 2, 3, 7]);
+	let (vol, pan) = if deco { (gen_db(r), gen_pan(r)) } else { (Tgt::Fixed(0.0), Tgt::Fixed(0.0)) };
+	let vol = match vol {
+		Tgt::Mod { olo, .. } => Tgt::Fixed(olo),
+		v => v,
+	};
+	let sc = Scenario { sr, dt, frames, slice, start: Pos::Smp(start), lp, st: Start::Imm, vol, rate: Tgt::Fixed(rate), pan, fade_in: None, packets, gran, lead: Lead::Free, cbs: w.cbs, outside: false };
+	let plain_positions = if lp.is_none() { Some(start) } else { None };
+	Some(WrapScenario { sc, at: w.at, plain_positions })
+}
+/// runs a boundary scenario on the two `Box<dyn Sound>` (and, `mgr`, on two managers); counts the boundaries reached
+fn submit_wrap(s: &mut Session, ids: &Ids, kind: &str, ws: &WrapScenario, mgr: Option<usize>) {
+	let tr = submit(s, ids, kind, &ws.sc, false);
+	for (cb, pops) in &ws.at {
+		s.count("callbacks_starting_at_the_last_ring_slot");
+		// the bookkeeping is right: the static sound stands at start + pops there (sounds played straight through)
+		if let (Some(start), Some((p, st))) = (ws.plain_positions, tr.st.pos.get(*cb)) {
+			let idx = p * ws.sc.sr as f64;
+			if *st != PlaybackState::Stopped && (idx - (start as f64 + *pops as f64)).abs() < 1.0 {
+				s.count("callbacks_starting_at_the_last_ring_slot_confirmed_by_static_position");
+			} else {
+				s.count("callbacks_starting_at_the_last_ring_slot_NOT_confirmed");
+				s.notes.push(format!("{kind}: callback {cb} was built to start with {pops} entries popped (start {start}), the static sound reports frame {idx} state {st:?}"));
+			}
+		}
+	}
+	if let Some(ibs) = mgr {
+		let mut sc = ws.sc.clone();
+		fix_for_manager(&mut sc);
+		run_manager_pair(s, ids, &sc, ibs, &format!("{kind}_managers"));
+		for _ in &ws.at {
+			s.count("manager_callbacks_starting_at_the_last_ring_slot");
+		}
+	}
+}
+/// DIRECTED corpus, the same on every run (its own fixed generator state, not `args.seed`): callback boundaries at
+/// 16383, 32767, 49151 .. popped entries for equal and unequal sample rates, rates below, at and above 1, plain and
+/// looping sounds, as `Box<dyn Sound>` and through two managers
+fn wrap_corpus(s: &mut Session, ids: &Ids) {
+	let plain = |len: usize| Cb { cmds: Cmds::default(), lens: vec![len], clocks: vec![], mods: vec![], grant: 0 };
+	// 40000 frames at 1 kHz, rate 1, packets of 480, callbacks of unequal sizes: the 4th, 5th, 10th and 11th end with
+	// 16383, 16483 (no boundary), 32767 .. entries popped
+	let n = 40_000usize;
+	let lens = [4000usize, 4000, 4000, 4383, 100, 100, 3801, 4000, 4000, 4383, 100, 100];
+	let mut packets = vec![480usize; n / 480];
+	packets.push(n % 480);
+	let sc = Scenario {
+		sr: 1000,
+		dt: 1.0 / 1000.0,
+		frames: (0..n).map(|i| {
+			let f = indexed_frame(i);
+			(f.left.to_bits(), f.right.to_bits())
+		}).collect(),
+		slice: None,
+		start: Pos::Smp(0),
+		lp: None,
+		st: Start::Imm,
+		vol: Tgt::Fixed(0.0),
+		rate: Tgt::Fixed(1.0),
+		pan: Tgt::Fixed(0.0),
+		fade_in: None,
+		packets,
+		gran: 1,
+		lead: Lead::Free,
+		cbs: lens.iter().map(|l| plain(*l)).collect(),
+		outside: false,
+	};
+	let ws = WrapScenario { sc, at: vec![(4, 16383), (10, 32767)], plain_positions: Some(0) };
+	submit_wrap(s, ids, "wrap_directed_unequal_callbacks", &ws, Some(128));
+	let mut r = Rng::new(0xC09_16383);
+	for (k, (sr, dev, rate, hits, mgr)) in [
+		(48000u32, 48000u32, 1.0f64, 3usize, Some(128usize)),
+		(48000, 48000, 1.5, 2, None),
+		(44100, 48000, 1.0, 2, Some(16)),
+		(22050, 44100, 1.0, 1, None),
+		(48000, 44100, 1.0, 2, None),
+		(4, 4, 3.0, 2, Some(3)),
+		(1000, 500, 0.75, 1, None),
+		(48000, 48000, 0.25, 1, None),
+		(8, 16, 1.25, 2, None),
+		(48000, 48000, 17.5, 1, None),
+	]
+	.into_iter()
+	.enumerate()
+	{
+		match wrap_scenario(&mut r, sr, dev, rate, hits, 40 * RING as u64, k % 2 == 1) {
+			Some(ws) => submit_wrap(s, ids, &format!("wrap_directed_{k}"), &ws, mgr),
+			None => s.fail(format!("directed boundary history {k}: sound rate {sr}, device rate {dev}, playback rate {rate}"), "harness: no callback boundary with 16383 (mod 16384) entries popped found for these fixed settings".into(), None),
+		}
+	}
+}
+/// the same, drawn from the run's generator
+fn wrap_random(s: &mut Session, ids: &Ids, r: &mut Rng, mgr: bool) {
+	for _ in 0..8 {
+		let (sr, dev) = *r.pick(&[(4u32, 4u32), (1000, 1000), (1000, 500), (48000, 48000), (48000, 48000), (44100, 48000), (22050, 44100), (8, 16), (48000, 44100)]);
+		let rate = match r.below(10) {
+			0 | 1 | 2 => 1.0,
+			3 => 0.5,
+			4 => 1.5,
+			5 => 0.25 + r.dyadic_unit(4),
+			6 => 0.2 + r.unit_f64() * 1.5,
+			7 => 3.0,
+			8 => 1.0 + r.dyadic_unit(3) * 4.0,
+			_ => 5.0 + r.below(30) as f64 + r.dyadic_unit(1),
+		};
+		let hits = r.range(1, 3) as usize;
+		if let Some(ws) = wrap_scenario(r, sr, dev, rate, hits, 12 * RING as u64, true) {
+			let ibs = *r.pick(&[1usize, 3, 16, 128]);
+			submit_wrap(s, ids, "pair_wrap", &ws, if mgr { Some(ibs) } else { None });
+			return;
+		}
+		s.count("pair_wrap_no_boundary_for_this_rate");
+	}
+}
+
 pub fn run(args: &Args) {
 	let mut rng = Rng::new(args.seed ^ 0xC09);
 	install_hook();
@@ -1416,15 +1688,22 @@ pub fn run(args: &Args) {
 	let n_paced: u64 = (if args.thorough { 2_400 } else { 200 }) * mul;
 	let n_big: u64 = (if args.thorough { 15_000 } else { 1_200 }) * mul;
 	let n_mgr: u64 = (if args.thorough { 4_000 } else { 300 }) * mul;
+	let n_wrap: u64 = (if args.thorough { 600 } else { 64 }) * mul;
 	let mut s = Session::new(
 		"C09",
 		&args.out,
 		"From Coq Require Import ZArith List. Import ListNotations. Open Scope Z_scope.\nFrom KV Require Import Base.Corr C06.Run C09.Run.\nModule R4 := KV.C04.Run.",
 		"run",
 		24,
-		"one case = one frame vector (random / index-coded samples; 0-48 frames for model cases, up to 60000 for monitor-only ones), settings (sound and device rates, start position in samples or seconds incl. beyond the end, slice, loop region incl. empty / inverted / beyond the end, start time, volume / rate / panning fixed or modulator-linked, fade-in), a scripted decoder over the same vector (packet sizes 1..all, seek granularity 1..1000 packets), and a history of callbacks (1-2 process calls of 1-256 frames) with volume / rate / panning / pause / resume / resume_at / stop commands; the real static and the real streaming sound (real decoder thread, kept ahead through the decode_scheduler yield points: free-running, or paced with exactly tight / generous / starving leads) are driven side by side as Box<dyn Sound> (and through two real AudioManagers); monitors = the property (position and state before the first callback identical; outputs bit-identical, states and finished() identical after every call, state identical after every on_start_processing, positions within one frame until the end); model cases compare both traces with the Coq model bit for bit (every 8th without the checked fast paths); the *_refuted witnesses of the Coq development are replayed; distinct = distinct scenarios with a command, loop, slice or natural end",
+		"one case = one frame vector (random / index-coded samples; 0-48 frames for model cases, up to 60000 for monitor-only ones), settings (sound and device rates, start position in samples or seconds incl. beyond the end, slice, loop region incl. empty / inverted / beyond the end, start time, volume / rate / panning fixed or modulator-linked, fade-in), a scripted decoder over the same vector (packet sizes 1..all, seek granularity 1..1000 packets), and a history of callbacks (1-2 process calls of 1-256 frames) with volume / rate / panning / pause / resume / resume_at / stop commands; the real static and the real streaming sound (real decoder thread, kept ahead through the decode_scheduler yield points: free-running, or paced with exactly tight / generous / starving leads) are driven side by side as Box<dyn Sound> (and through two real AudioManagers); monitors = the property (position and state before the first callback identical; outputs bit-identical, states and finished() identical after every call, state identical after every on_start_processing, positions within one frame until the end); model cases compare both traces with the Coq model bit for bit (every 8th without the checked fast paths); the *_refuted witnesses of the Coq development are replayed; a directed corpus (identical on every run) and seeded histories end callbacks exactly where 16383 (mod 16384) ring entries have been popped (the next callback reads the ring across its physical end; equal and unequal sample rates, rates 0.2..35, plain and looping sounds, both drivers), counted under callbacks_starting_at_the_last_ring_slot; distinct = distinct scenarios with a command, loop, slice or natural end",
 	);
 	let ids = ids();
+	// 0. directed, the same on every run: callbacks that start while the ring's read position stands at its last slot
+	let t_wrap = Instant::now();
+	wrap_corpus(&mut s, &ids);
+	if std::env::var("C09_DEBUG").is_ok() {
+		eprintln!("C09: directed boundary corpus {:?}", t_wrap.elapsed());
+	}
 	// 1. model cases, free-running decoder
 	for _ in 0..n_model {
 		let sc = gen_scenario(&mut rng, true, Lead::Free);
@@ -1461,6 +1740,15 @@ pub fn run(args: &Args) {
 			sc.lp = Some((Pos::Smp(1), End::End));
 		}
 		submit(&mut s, &ids, "pair_heavy", &sc, false);
+	}
+	// 3a'. callback boundaries at 16383 (mod 16384) popped entries, drawn from the run's generator (every 4th also through
+	// two managers)
+	let t_wrap = Instant::now();
+	for i in 0..n_wrap {
+		wrap_random(&mut s, &ids, &mut rng, i % 4 == 3);
+	}
+	if std::env::var("C09_DEBUG").is_ok() {
+		eprintln!("C09: seeded boundary histories {:?}", t_wrap.elapsed());
 	}
 	// 3b. the Coq witnesses (`*_refuted`) replayed on the real code: outside the guard the two sounds do differ
 	witnesses(&mut s, &ids);
